@@ -244,7 +244,8 @@ fn step(ctx: &Ctx, st: &RState, op: &ROp, nm: &Names, shared: &Shared) -> StepOu
         }
         ROp::Inst2 { code, creator, salt, ok } => {
             set_script(init_program(*ok));
-            app.instantiate2_contract(*code, Addr::unchecked(&nm.creators[*creator as usize]), &NodeMsg { n: 0 }, &[], "s", None, Binary::from(salts()[*salt as usize].clone()))
+            // (the second salt is used with an admin)
+            app.instantiate2_contract(*code, Addr::unchecked(&nm.creators[*creator as usize]), &NodeMsg { n: 0 }, &[], "s", if *salt == 1 { Some(nm.creators[1].clone()) } else { None }, Binary::from(salts()[*salt as usize].clone()))
                 .map(|a| {
                     new_addr = Some(a.into_string());
                     0
@@ -340,7 +341,7 @@ fn step(ctx: &Ctx, st: &RState, op: &ROp, nm: &Names, shared: &Shared) -> StepOu
             }
             let (code, creator, admin, label, salted) = match op {
                 ROp::Inst { code, creator, variant, .. } => (*code, nm.creators[*creator as usize].clone(), if *variant == 0 { None } else { Some(nm.creators[0].clone()) }, if *variant == 0 { "l" } else { " m\t" }, None),
-                ROp::Inst2 { code, creator, salt, .. } => (*code, nm.creators[*creator as usize].clone(), None, "s", Some((model.codes[code].class, nm.creators[*creator as usize].clone(), *salt))),
+                ROp::Inst2 { code, creator, salt, .. } => (*code, nm.creators[*creator as usize].clone(), if *salt == 1 { Some(nm.creators[1].clone()) } else { None }, "s", Some((model.codes[code].class, nm.creators[*creator as usize].clone(), *salt))),
                 _ => unreachable!(),
             };
             if let ROp::Inst2 { code, creator, salt, .. } = op {
